@@ -227,12 +227,17 @@ func (sc *RevScenario) evalCert(rc *ruleCtx, obs *RevObs, co *CallObs, v *CertVi
 		return
 	}
 	// ---------- C12.R2: positional ----------
-	own := map[string]bool{"": true}
+	own := map[string]bool{}
 	for _, s := range v.OCSP {
 		own[s.URL] = true
 	}
-	for _, s := range v.CRL {
+	for _, s := range crl {
 		own[s.URL] = true
+	}
+	if len(own) == 0 {
+		// a certificate without any source the entry point uses: the single
+		// NonRevokable entry carries no server
+		own[""] = true
 	}
 	if rc.on("C12") {
 		rc.anteTrue("C12.R2")
@@ -572,12 +577,13 @@ func (sc *RevScenario) checkShape(rc *ruleCtx, v *CertView, tag string) {
 	checkOCSPPart := func(es []*result.ServerResult, must result.Result, final bool) {
 		nResp := len(v.OCSP)
 		switch {
-		case len(es) == 1 && (nResp == 1 || es[0].Result != result.ResultUnknown || true):
+		case len(es) == 1:
+			// one decisive entry (or the only responder's entry)
 			if final && es[0].Result != r.Result {
 				bad("ocsp_single_entry_differs_from_verdict")
 			}
-			if len(es) == 1 && nResp > 1 && es[0].Result == result.ResultUnknown {
-				// one decisive Unknown (status unknown) entry: allowed
+			if es[0].Result == result.ResultNonRevokable {
+				bad("ocsp_entry_nonrevokable_for_certificate_with_responders")
 			}
 		case len(es) == nResp:
 			for _, e := range es {
@@ -611,8 +617,15 @@ func (sc *RevScenario) checkShape(rc *ruleCtx, v *CertView, tag string) {
 				bad(fmt.Sprintf("crl_non_ok_needs_single_entry_got_%d", len(es)))
 			} else if es[0].Result != r.Result {
 				bad("crl_single_entry_differs_from_verdict")
+			} else if r.Result != result.ResultRevoked && r.Result != result.ResultUnknown {
+				bad("crl_single_entry_must_be_revoked_or_unknown_got_" + r.Result.String())
 			}
 		}
+	}
+	hasSources := len(v.OCSP) > 0 || (v.UsesCR && len(v.CRL) > 0)
+	if r.Result == result.ResultNonRevokable && hasSources {
+		bad("nonrevokable_verdict_for_certificate_with_sources")
+		return
 	}
 	switch r.RevocationMethod {
 	case result.RevocationMethodOCSP:
